@@ -31,18 +31,24 @@ the QUIC transport, snapshots (C20).
 namespace WalrusVerif.Props.C19
 open WalrusVerif WalrusVerif.Adapter
 
-/-- the state the adapter-independent part of an entry leaves untouched -/
+/-- one entry: the application is handed the entry's command (if it is one) - unless the application fails on this
+node before taking it, and then the call fails -/
 theorem applyOne_cmds (s : SmSt) (e : REntry) :
-    (applyOne s e).1.cmds = s.cmds ++ cmdsOf [e] := by
+    ((applyOne s e).1.cmds = s.cmds ++ cmdsOf [e]) ∨
+    ((applyOne s e).1.cmds = s.cmds ∧ (applyOne s e).2.2 = false) := by
   unfold applyOne cmdsOf
   cases hp : e.payload with
-  | blank => simp [hp]
-  | membership m => simp [hp]
+  | blank => left; simp [hp]
+  | membership m => left; simp [hp]
   | normal c =>
     simp only [hp, List.filterMap_cons, List.filterMap_nil]
-    cases kvApply s.kv c with
-    | none => rfl
-    | some x => rfl
+    by_cases hf : s.failNext = true
+    · right; simp [hf]
+    · left
+      simp only [hf, Bool.false_eq_true, if_false]
+      cases kvApply s.kv c with
+      | none => rfl
+      | some x => rfl
 
 theorem cmdsOf_append (a b : List REntry) : cmdsOf (a ++ b) = cmdsOf a ++ cmdsOf b := by
   simp [cmdsOf, List.filterMap_append]
@@ -74,6 +80,10 @@ theorem applyAll_cmds (es : List REntry) : ∀ s : SmSt,
     cases ok with
     | true =>
       rw [applyAll_cons_ok s s' e r o h]
+      have h1 : s'.cmds = s.cmds ++ cmdsOf [e] := by
+        rcases h1 with h1 | ⟨_, h2⟩
+        · exact h1
+        · simp at h2
       obtain ⟨d, hd1, hd2, hd3⟩ := ih s'
       refine ⟨cmdsOf [e] ++ d, ?_, ?_, ?_⟩
       · simp only; rw [hd1, h1, List.append_assoc]
@@ -81,9 +91,12 @@ theorem applyAll_cmds (es : List REntry) : ∀ s : SmSt,
       · intro hok; simp only at hok; rw [hc, hd3 hok]
     | false =>
       rw [applyAll_cons_fail s s' e r o h]
-      refine ⟨cmdsOf [e], by simpa using h1, ?_, ?_⟩
-      · rw [hc]; exact List.prefix_append _ _
-      · intro hok; simp at hok
+      rcases h1 with h1 | ⟨h1, _⟩
+      · refine ⟨cmdsOf [e], by simpa using h1, ?_, ?_⟩
+        · rw [hc]; exact List.prefix_append _ _
+        · intro hok; simp at hok
+      · refine ⟨[], by simpa using h1, List.nil_prefix, ?_⟩
+        intro hok; simp at hok
 
 /-- cutting the stream into calls changes nothing: several successful calls are one call on the concatenation -/
 theorem applyAll_append (a b : List REntry) : ∀ s : SmSt, (applyAll s a).2.2 = true →
@@ -202,13 +215,16 @@ theorem applyAll_kv (es : List REntry) : ∀ s : SmSt, (applyAll s es).2.2 = tru
         rw [← ih s' hok, ← h.1]; simp [cmdsOf, hp]
       | normal c =>
         simp only [hp] at h
-        cases hk : kvApply s.kv c with
-        | none => rw [hk] at h; simp at h
-        | some x =>
-          rw [hk] at h
-          simp only [Prod.mk.injEq] at h
-          rw [← ih s' hok, ← h.1]
-          simp [cmdsOf, hp, kvReplay, hk]
+        by_cases hf : s.failNext = true
+        · simp [hf] at h
+        · simp only [hf, Bool.false_eq_true, if_false] at h
+          cases hk : kvApply s.kv c with
+          | none => rw [hk] at h; simp at h
+          | some x =>
+            rw [hk] at h
+            simp only [Prod.mk.injEq] at h
+            rw [← ih s' hok, ← h.1]
+            simp [cmdsOf, hp, kvReplay, hk]
 
 /-- **Same commands, same state.**  The application state of a node is a function of the entries it has been fed:
 two nodes fed the same prefix of the committed sequence - however cut into calls, whichever of them proposed which
@@ -231,7 +247,10 @@ theorem applyOne_strip (s : SmSt) (e : REntry) :
   | membership m => simp
   | normal c =>
     simp only
-    cases kvApply s.kv c <;> simp
+    by_cases hf : s.failNext = true
+    · simp [hf]
+    · simp only [hf, Bool.false_eq_true, if_false]
+      cases kvApply s.kv c <;> simp
 
 /-- **Responders do not matter.**  The node that proposed an entry hands the application's answer back to the client;
 the nodes that got the entry by replication do not.  The state they end in is the same. -/
@@ -275,9 +294,12 @@ theorem C19_last_applied_is_last_fed (es : List REntry) (e : REntry) : ∀ s : S
       | membership m => simp only [hp, Prod.mk.injEq] at h; rw [← h.1]
       | normal c =>
         simp only [hp] at h
-        cases hk : kvApply s.kv c with
-        | none => rw [hk] at h; simp at h
-        | some x => rw [hk] at h; simp only [Prod.mk.injEq] at h; rw [← h.1]
+        by_cases hf : s.failNext = true
+        · simp [hf] at h
+        · simp only [hf, Bool.false_eq_true, if_false] at h
+          cases hk : kvApply s.kv c with
+          | none => rw [hk] at h; simp at h
+          | some x => rw [hk] at h; simp only [Prod.mk.injEq] at h; rw [← h.1]
   | cons a r ih =>
     intro s hok
     simp only [List.cons_append] at hok ⊢
@@ -285,6 +307,39 @@ theorem C19_last_applied_is_last_fed (es : List REntry) (e : REntry) : ∀ s : S
     cases ok with
     | false => rw [applyAll_cons_fail _ _ _ _ _ h] at hok; simp at hok
     | true => rw [applyAll_cons_ok _ _ _ _ _ h] at hok ⊢; simp only at hok ⊢; exact ih s' hok
+
+/-- **A node-local failure stops the node, it does not make it skip.**  When the application fails on this node
+while a command is handed to it (whatever the adapter's state, whatever the stream), the call returns the error and the
+commands the application has taken are still a prefix of the commands fed: the node has applied less than the others,
+not something different.  (openraft shuts the Raft instance down on the error; the restarted node is fed its log again
+from the start, `C19_partial`.) -/
+theorem C19_local_failure_stops_the_node (s : SmSt) (es : List REntry) (hf : s.failNext = true)
+    (hc : cmdsOf es ≠ []) :
+    (applyAll s es).2.2 = false ∧ ∃ d, (applyAll s es).1.cmds = s.cmds ++ d ∧ d <+: cmdsOf es := by
+  refine ⟨?_, ?_⟩
+  · induction es generalizing s with
+    | nil => simp [cmdsOf] at hc
+    | cons e r ih =>
+      rcases h : applyOne s e with ⟨s', o, ok⟩
+      cases ok with
+      | false => rw [applyAll_cons_fail _ _ _ _ _ h]
+      | true =>
+        rw [applyAll_cons_ok _ _ _ _ _ h]
+        simp only
+        have hce := cmdsOf_cons e r
+        unfold applyOne at h
+        cases hp : e.payload with
+        | normal c => simp [hp, hf] at h
+        | blank =>
+          simp only [hp, Prod.mk.injEq] at h
+          refine ih s' (by rw [← h.1]; exact hf) ?_
+          rw [hce] at hc; simpa [cmdsOf, hp] using hc
+        | membership m =>
+          simp only [hp, Prod.mk.injEq] at h
+          refine ih s' (by rw [← h.1]; exact hf) ?_
+          rw [hce] at hc; simpa [cmdsOf, hp] using hc
+  · obtain ⟨d, h1, h2, _⟩ := applyAll_cmds es s
+    exact ⟨d, h1, h2⟩
 
 /-! Non-vacuity: a committed sequence with a membership change, a blank entry and five commands; node 1 (which
 proposed entries 3 and 6) has been fed all of it in two calls, node 2 the first five entries one by one. -/
@@ -302,5 +357,12 @@ example : (applyBatches {} [demoG.take 3, demoG.drop 3]).2 = true ∧
 not looked at -/
 example : applyAll {} [⟨1, 1, .normal (.set 1 1), true⟩, ⟨2, 1, .normal .bad, true⟩, ⟨3, 1, .normal (.set 2 2), true⟩] =
     ({ lastApplied := some (2, 1), cmds := [.set 1 1, .bad], kv := [(1, 1)] }, [(1, .ok)], false) := by decide
+
+/-- the application fails on this node at the second command: the call returns the error, the first command is applied,
+the second and third are not -/
+example : applyAll { failNext := false } [⟨1, 1, .normal (.set 1 1), false⟩] = ({ lastApplied := some (1, 1), cmds := [.set 1 1], kv := [(1, 1)] }, [], true) ∧
+    applyAll { lastApplied := some (1, 1), cmds := [.set 1 1], kv := [(1, 1)], failNext := true }
+      [⟨2, 1, .blank, false⟩, ⟨3, 1, .normal (.set 2 2), true⟩, ⟨4, 1, .normal (.set 3 3), false⟩] =
+    ({ lastApplied := some (3, 1), cmds := [.set 1 1], kv := [(1, 1)] }, [], false) := by decide
 
 end WalrusVerif.Props.C19
